@@ -296,13 +296,17 @@ func c09GenUnion(r *Rng, idx int) c09Union {
 	}
 	// a union with properties or additionalProperties of its own is an object: its members are objects
 	if len(u.Prims) == 0 {
-		switch r.Intn(4) {
+		switch r.Intn(5) {
 		case 0:
 			u.Fixed = "meta"
 		case 1:
 			if u.Disc != "" {
 				u.Fixed = "kind"
 			}
+		case 2:
+			// a required, nullable member of the union itself that some members declare too: nil is written as null and
+			// wins over the stored member's value
+			u.Fixed = "name"
 		}
 		u.Addl = r.Chance(20)
 	}
@@ -341,6 +345,9 @@ func (u c09Union) Schema() J {
 	switch u.Fixed {
 	case "meta":
 		s["properties"] = J{"meta": J{"type": "string"}}
+	case "name":
+		s["properties"] = J{"name": J{"type": "string", "nullable": true}}
+		s["required"] = []interface{}{"name"}
 	case "kind":
 		// next to the discriminator property another string member that sorts after it: the discriminator is that one
 		// property, not the last string member of the union
@@ -551,6 +558,19 @@ func runC09(ctx *Ctx) error {
 				}
 				return v
 			}
+			// the union's own required nullable member is nil after From/Merge: it is written as null over the member's
+			withOwn := func(v interface{}) interface{} {
+				o, isObj := v.(map[string]interface{})
+				if !isObj || u.Fixed != "name" {
+					return v
+				}
+				c := map[string]interface{}{}
+				for k, x := range o {
+					c[k] = x
+				}
+				c["name"] = nil
+				return c
+			}
 			for _, sfx := range suffixes {
 				v, ok := samples[sfx]
 				if !ok {
@@ -593,8 +613,8 @@ func runC09(ctx *Ctx) error {
 					ctx.Res.Violate("as-from:"+sig, fmt.Sprintf("From%s(%s) then As%s() gives %s %s; expected %s", sfx, jsonOf(v), sfx, asJS, e, jsonOf(want)), replay)
 				}
 				out, _ := resp["out"].(string)
-				if !jsonEqual(out, jsonOf(want)) {
-					ctx.Res.Violate("marshal:"+sig, fmt.Sprintf("after From%s(%s) the union marshals to %s; expected %s", sfx, jsonOf(v), out, jsonOf(want)), replay)
+				if !jsonEqual(out, jsonOf(withOwn(want))) {
+					ctx.Res.Violate("marshal:"+sig, fmt.Sprintf("after From%s(%s) the union marshals to %s; expected %s", sfx, jsonOf(v), out, jsonOf(withOwn(want))), replay)
 				}
 				if u.Disc != "" {
 					dj, _, e := val(2)
@@ -629,7 +649,7 @@ func runC09(ctx *Ctx) error {
 						return err
 					}
 					ctx.Res.Count("merge")
-					want := overlay(stored(a), stored(b))
+					want := withOwn(overlay(stored(a), stored(b)))
 					out, _ := resp["out"].(string)
 					if !jsonEqual(out, jsonOf(want)) {
 						ctx.Res.Violate("merge:"+sig, fmt.Sprintf("From%s then Merge%s gives %s; the overlay of the new member onto the stored one is %s", a, b, out, jsonOf(want)), replay)
